@@ -56,6 +56,12 @@ def run(ctx: Ctx):
     # - the cube-measure classes and the smoother - write to nothing they did not create ("Owned" = the response copy
     # that Cube itself made and pads before anything is read from it)
     no_shared_writes(ctx, "payload-not-written", shorts=("cube.py", "matrix/cubemeasure.py", "stripe/cubemeasure.py", "smoothing.py"), accept=("Fresh", "Self", "Owned"))
+    # ... and the layers above them write to nothing that COMES FROM the cube-measure layer or the cube: those arrays are
+    # the payload arrays themselves or views of them (`sums[:, 0]`), cached for every later reader
+    from .common import MEASURE_CODE
+
+    no_shared_writes(ctx, "payload-not-written.upper-layers", shorts=tuple(MEASURE_CODE) + ("cubepart.py", "min_base_size_mask.py", "measures/pairwise_significance.py", "scalar.py"),
+                     accept=("Fresh", "Self", "Owned"), origin_words=("_cube_measures.", "self._cube.", "cube_measures.", "cube."))
 
 
 # --------------------------------------------------------------------------- 1
